@@ -668,12 +668,14 @@ func (c *FCtx) havocLike(st *State, name string, v Val) Val {
 // dryRun executes fn on a copy of st with obligations disabled and returns the set of
 // pre-existing cells that may be written.
 func (c *FCtx) dryRun(st *State, fn func(s *State) []Flow) map[int]bool {
+	c.lastDryFields = map[int]map[int]bool{}
 	save := c.dry
 	saveSide := c.side
 	c.dry = true
 	c.side = nil
 	s := st.clone()
 	s.written = map[int]bool{}
+	s.wfields = map[int]map[int]bool{}
 	flows := fn(s)
 	flows = append(flows, c.takeSide()...)
 	c.dry = save
@@ -683,6 +685,16 @@ func (c *FCtx) dryRun(st *State, fn func(s *State) []Flow) map[int]bool {
 		for k := range f.st.written {
 			if _, existed := st.cells[k]; existed {
 				out[k] = true
+				if c.lastDryFields[k] == nil {
+					c.lastDryFields[k] = map[int]bool{}
+				}
+				if m, ok := f.st.wfields[k]; ok {
+					for fld := range m {
+						c.lastDryFields[k][fld] = true
+					}
+				} else {
+					c.lastDryFields[k][-1] = true
+				}
 			}
 		}
 		// slice variables may be re-sliced inside loops only over the same backing store
@@ -700,6 +712,21 @@ func (c *FCtx) dryRun(st *State, fn func(s *State) []Flow) map[int]bool {
 		}
 	}
 	return out
+}
+
+// havocFields: like havocLike, but for a struct cell of which only some top-level fields were written, only those.
+func (c *FCtx) havocFields(st *State, name string, v Val, fields map[int]bool) Val {
+	tv, ok := v.(TV)
+	if !ok || fields == nil || fields[-1] || len(fields) == 0 {
+		return c.havocLike(st, name, v)
+	}
+	fs := append([]Val(nil), tv.Fs...)
+	for f := range fields {
+		if f >= 0 && f < len(fs) {
+			fs[f] = c.havocLike(st, fmt.Sprintf("%s.%d", name, f), tv.Fs[f])
+		}
+	}
+	return TV{fs, tv.Typ}
 }
 
 func (c *FCtx) cellName(st *State, id int) string {
@@ -798,8 +825,9 @@ func (c *FCtx) execLoop(st *State, lp *loopParts) []Flow {
 	for k, fr := range c.autoFrame(st, ids) {
 		c.oblige(st, "inv-init", fmt.Sprintf("%s/auto-frame[%d]/init", lname, k+1), fr, pos)
 	}
+	dryFields := c.lastDryFields
 	for _, id := range ids {
-		hs.cells[id] = c.havocLike(hs, c.cellName(st, id), st.cells[id])
+		hs.cells[id] = c.havocFields(hs, c.cellName(st, id), st.cells[id], dryFields[id])
 		hs.written[id] = true
 	}
 	for _, fr := range c.autoFrame(hs, ids) {
@@ -993,8 +1021,9 @@ func (c *FCtx) execLabelLoop(st *State, x *ast.LabeledStmt, rest []ast.Stmt) []F
 		return out
 	})
 	hs := st.clone()
+	dryFields := c.lastDryFields
 	for _, id := range sortedKeys(mod) {
-		hs.cells[id] = c.havocLike(hs, c.cellName(st, id), st.cells[id])
+		hs.cells[id] = c.havocFields(hs, c.cellName(st, id), st.cells[id], dryFields[id])
 		hs.written[id] = true
 	}
 	henv := c.invEnv(hs, x)
